@@ -147,12 +147,18 @@ class Affine(Homogeneous):
         """
         from .rotation import Rotation
         from .translation import Translation
-        from .scale import Scale
+        from .scale import NonUniformScale, UniformScale
 
         U, S, V = np.linalg.svd(self.linear_component)
         rotation_2 = Rotation(U)
         rotation_1 = Rotation(V)
-        scale = Scale(S)
+        # keep the singular values as they are: the Scale factory would snap
+        # nearly equal ones to a UniformScale and the parts would no longer
+        # recompose to this transform
+        if np.all(S == S[0]):
+            scale = UniformScale(S[0], S.shape[0])
+        else:
+            scale = NonUniformScale(S)
         translation = Translation(self.translation_component)
         return [rotation_1, scale, rotation_2, translation]
 
